@@ -300,6 +300,7 @@ impl Server {
         #[cfg(feature = "verif")]
         crate::verif::point(crate::verif::Ev::VfsWriteAcquired);
         let file_id = vfs.assign_or_get_file_id(path);
+        vfs.set_open_document(file_id, text.to_string());
         let text = Arc::from(text);
         #[cfg(feature = "verif")]
         crate::verif::point(crate::verif::Ev::SalsaWriteWant("set_file_content"));
